@@ -139,9 +139,15 @@ ENUM_CFGS = (
 )
 
 
-def fixed_cases():
-    """One fixed case per (layout, granularity): inside it *every* placement of one worker exception is tried."""
-    return ([{"mode": 63, "enum_confirm": 1, "enum_cfg": c, "enum_gran": g} for c in range(len(ENUM_CFGS)) for g in (0, 1)] +
+def fixed_cases(tier="quick"):
+    """One fixed case per (layout, granularity): inside it *every* placement of one worker exception is tried.
+    Thorough adds granularity 2 (every sigmaclip call is a yield point as well) and, for the four-stripe layout, all 576
+    pairs of arrival orders (24 cases of 24 pairs) instead of 60 drawn pairs."""
+    extra = []
+    if tier == "thorough":
+        extra = ([{"mode": 63, "enum_confirm": 1, "enum_cfg": c, "enum_gran": 2} for c in range(len(ENUM_CFGS))] +
+                 [{"mode": 62, "enum_confirm": 1, "order_cfg": 3, "order_all_first": 1 + i} for i in range(24)])
+    return (extra + [{"mode": 63, "enum_confirm": 1, "enum_cfg": c, "enum_gran": g} for c in range(len(ENUM_CFGS)) for g in (0, 1)] +
             [{"mode": 62, "enum_confirm": 1, "order_cfg": c} for c in range(len(ORDER_CFGS))] +
             [{"mode": 61, "enum_confirm": 1, "layout_cfg": c} for c in range(len(LAYOUT_CFGS))])
 
@@ -151,14 +157,14 @@ def _enum_case(ch, out):
     the synchronisation / I/O / compute seams) or at the first execution of every source line (granularity 1) of
     every stripe, under the canonical schedule.  Each placement must make the call raise promptly, leak nothing."""
     ci = ch.draw("enum_cfg", len(ENUM_CFGS))
-    gran = ch.draw("enum_gran", 2)
+    gran = ch.draw("enum_gran", 3)
     cfg = dict(ENUM_CFGS[ci], naxis=2, nplanes=1, cube_index=0, bitpix=-64, bscale=None)
     content = dict(seed=7, kind="noise", offset_pow=3, offset_neg=False, sigma_pow=0, blank="pixels", blank_inf=False, blank_seed=3)
     img = bw.make_image(cfg, content)
     fn = bw.write_image(bw.fresh_path("c07e"), cfg, img)
-    hot, line = (0, 0) if gran == 0 else (0, 1)
+    hot, line = ((0, 0), (0, 1), (1, 0))[gran]
     sched = bw.canonical_sched(hot, line)
-    out.sample = {"enumeration": {"config": _cfg_str(cfg), "granularity": "yield points" if gran == 0 else "source lines"},
+    out.sample = {"enumeration": {"config": _cfg_str(cfg), "granularity": ("seam yield points", "source lines", "seam yield points + every sigmaclip call")[gran]},
                   "placements": 0}
     r0 = _run(fn, cfg, sched, ch, fill="payload")
     _count(out, r0)
@@ -166,7 +172,7 @@ def _enum_case(ch, out):
         return out
     placements = []
     for tname in sorted(n for n in r0.worker_yields if n != "main"):
-        if gran == 0:
+        if gran in (0, 2):
             placements += [(tname, "yield", k) for k in range(r0.worker_yields[tname])]
         else:
             placements += [(tname, "line", o) for (o, _fn, _ln, nested) in r0.first_lines.get(tname, ()) if nested]
@@ -229,8 +235,12 @@ def _order_case(ch, out):
         n = len(r0.layout)
         nphase = 2 if cfg["mask"] else 1
         perms = list(itertools.permutations(range(n)))
+        first_fixed = ch.draw("order_all_first", 25)
         if n <= 3:
             combos = list(itertools.product(perms, repeat=nphase))
+        elif first_fixed:
+            # thorough: this case takes one order at barrier 1 and every order at barrier 2
+            combos = [(perms[(first_fixed - 1) % len(perms)], p2) for p2 in perms] if nphase == 2 else [(perms[(first_fixed - 1) % len(perms)],)]
         else:
             combos = [tuple(perms[ch.draw("perm", len(perms))] for _ in range(nphase)) for _ in range(60)]
         scheds = [dict(perms=[list(p) for p in c], stall=None) for c in combos]
